@@ -1577,6 +1577,11 @@ where
         if tree.is_valid() {
             let fresh = if W::IS_FLOAT { None } else { WeightedTreeIndex::<W>::new(model.iter().map(|&m| W::from_m(m)).collect::<Vec<W>>()).ok() };
             let cl = tree.clone();
+            // a clone is the same value: equal, printing the same (a Clone that re-derives the subtotals of a float
+            // tree differs in its last bits and, one draw in a million, in what it samples)
+            if cl != tree || format!("{:?}", cl) != format!("{:?}", tree) {
+                viol(ctx, "WeightedTreeIndex", W::NAME, "clone_differs", "history", format!("WeightedTreeIndex<{}> {} after {} mutations: clone() is not equal to the original (== {}, Debug equal {})", W::NAME, show(&model), muts, cl == tree, format!("{:?}", cl) == format!("{:?}", tree)), json!({"kind": "tree", "tree": TreeCase { wt: W::NAME.into(), ops: if ops.len() <= 400 { ops.clone() } else { vec![] } }}));
+            }
             let (mut r0, mut r1, mut r2) = (VRng::from_env(seed ^ 0xC1), VRng::from_env(seed ^ 0xC1), VRng::from_env(seed ^ 0xC1));
             for k in 0..256 {
                 let a = catch(|| tree.try_sample(&mut r0));
